@@ -338,6 +338,9 @@ Fixpoint eval (e : oexpr) (x : list T) : list T :=
    a nested OperatorLeftScalarMult:  scalar = s * op.scalar ; operator = op.operator *)
 Definition mk_lscal (s : T) (e : oexpr) : oexpr :=
   match e with OLScal a s' => OLScal a (s * s') | _ => OLScal e s end.
+(* OperatorRightScalarMult.__init__ merges a nested OperatorRightScalarMult the same way *)
+Definition mk_rscal (s : T) (e : oexpr) : oexpr :=
+  match e with ORScal a s' => ORScal a (s * s') | _ => ORScal e s end.
 (* y * op for y = other(x) in op.range: a Number when the range is the field
    (-> OperatorLeftScalarMult), an element otherwise (-> OperatorLeftVectorMult) *)
 Definition mk_lmul (r : space) (y : list T) (e : oexpr) : oexpr :=
@@ -386,7 +389,7 @@ Fixpoint derivative (e : oexpr) (x : list T) : oexpr :=
       OSum (mk_lmul (ran a) (eval b x) (derivative a x)) (mk_lmul (ran a) (eval a x) (derivative b x))
   | OLScal a s => if is_lin a then e else mk_lscal s (derivative a x)
   | ORScal a s =>
-      if rsv P then ORScal (derivative a (vscal s x)) s else mk_lscal s (derivative a (vscal s x))
+      if rsv P then mk_rscal s (derivative a (vscal s x)) else mk_lscal s (derivative a (vscal s x))
   | OLVec a v => if is_lin a then e else OLVec (derivative a x) v
   | ORVec a v => if is_lin a then e else ORVec (derivative a (vmul v x)) v
   | OFLVec a v => if is_lin a then e else OFLVec (derivative a x) v
